@@ -12,6 +12,22 @@ CHECKS = {
    design="DESIGN.md §3 C06"),
 }
 
+CHECKS["C01"] = dict(
+   technique="property-based testing (Hypothesis): generated PEPit model programs x solver configurations; oracle = independent symbolic re-derivation of the dual certificate identity from the exposed multipliers",
+   text="Generated-input search over DSL programs (all 24 classes, steps, several metrics, user constraints, LMIs, partitions) and configurations; for every finite solve the proof identity objective - tau = sum(lambda c) - <S,G> - sum<Lambda,M> is rebuilt coefficient by coefficient with an independent evaluator, signs / PSD-ness / shapes / returned constant are checked. Exploration with scale-relative solver tolerances; non-optimal statuses are inconclusive.",
+   note="Trusted: vf/sem.py, cvxpy+CLARABEL/SCS as numerical solvers. MOSEK path is judged in C11 against a stand-in. One open known finding (non-symmetric LMIs).",
+   design="DESIGN.md §3 C01")
+CHECKS["C02"] = dict(
+   technique="property-based testing (Hypothesis): generated model programs with object histories around the solve; oracle = independent evaluation of every reachable object from the leaf values, Gram reconstruction, feasibility re-check",
+   text="Generated-input search: for every finite solve the leaf values must reproduce the PSD projection of the solver's Gram matrix, every held / pool / post-solve-built object must evaluate to the combination of its operands (independent evaluator), every sent constraint and LMI must hold, objective = primal return = min metric, primal <= dual. Includes objects evaluated before the solve and leaves created after it.",
+   note="Trusted: vf/sem.py, numpy eigh, CLARABEL/SCS (status optimal only).",
+   design="DESIGN.md §3 C02")
+CHECKS["C16"] = dict(
+   technique="property-based testing (Hypothesis): generated object zoo x accessors x phases, witnessed unbounded/infeasible models, invalid option values; oracle = documented ValueError / None / raise",
+   text="Generated-input search over object kinds, accessors and phases (never solved, solve returned None, created after a solve; each accessor is called twice), over models that are unbounded / infeasible with an independent witness (scaling ray, explicit contradiction) under CLARABEL and SCS, and over invalid option values on bounded models.",
+   note="Trusted: vf/sem.py to decide whether an object depends on an unsolved leaf; solver status reporting. MOSEK-path unbounded behaviour not judged.",
+   design="DESIGN.md §3 C16")
+
 NOT_APPLICABLE = []
 
 def main():
